@@ -99,10 +99,18 @@ def bfs(space: Space, max_states: int = 200000, max_depth: int = 50,
     frontier: List[List[Any]] = []
     tally = Tally()
     for h in space.initial_histories():
-        obj, model = space.replay(h)
-        for sig, detail in space.check(obj, model, h):
+        try:
+            obj, model = space.replay(h)
+            problems = space.check(obj, model, h)
+            k = space.key(obj, model)
+        except HarnessError:
+            raise
+        except Exception as e:
+            tally.violate(Violation(space.op_sig(h[-1]) + ["raised", type(e).__name__],
+                                    f"history={h!r}: {type(e).__name__}: {e}"[:500], {"history": h}))
+            continue
+        for sig, detail in problems:
             tally.violate(Violation(sig, f"history={h!r}: {detail}"[:600], {"history": h}))
-        k = space.key(obj, model)
         if k not in seen:
             seen[k] = h
             frontier.append(h)
